@@ -5,6 +5,7 @@ mod case;
 mod cases;
 mod check;
 mod corrupt;
+mod fault;
 mod crash;
 mod genr;
 mod hist;
